@@ -3,7 +3,7 @@ CONSTANTS
   MaxNodes = 6
   Keys = {1, 2}
   Leafs = {101, 160, 170}
-  Shapes = {200, 211, 220}
+  Shapes = {200, 211, 220, 223}
   MaxLen = 2
   Acts = {"dict", "list", "flags", "scope"}
   Mirror = FALSE
